@@ -45,6 +45,26 @@ theorem gtm_step (dx up a b : ℝ) (rest : List ℝ) :
     simp only [cumtrapzRev, h1, List.map_cons, List.headD_cons, sci_add, trap1_r, zero_r] at this ⊢
     linarith
 
+/-- C08: the whole list of cumulative values is sorted in non-increasing order of mass (non-negative integrand and step) -/
+theorem gtm_sorted (dx up : ℝ) (hdx : 0 ≤ dx) : ∀ ys : List ℝ, (∀ y ∈ ys, 0 ≤ y) →
+    List.IsChain (· ≥ ·) ((cumtrapzRev dx ys).map (· + up))
+  | [], _ => by simp [cumtrapzRev]
+  | [_], _ => by simp [cumtrapzRev]
+  | a :: b :: rest, h => by
+    have ih := gtm_sorted dx up hdx (b :: rest) (fun y hy => h y (by simp at hy ⊢; tauto))
+    have ha := h a (by simp); have hb := h b (by simp)
+    cases h1 : cumtrapzRev dx (b :: rest) with
+    | nil =>
+      have hl := cumtrapzRev_length dx (b :: rest)
+      rw [h1] at hl; simp at hl
+    | cons c cs =>
+      rw [h1] at ih
+      simp only [cumtrapzRev, h1, List.map_cons, List.headD_cons, sci_add, trap1_r, zero_r] at ih ⊢
+      refine List.IsChain.cons_cons ?_ ih
+      have : 0 ≤ 1 / 2 * dx * (a + b) := by positivity
+      show 1 / 2 * dx * (a + b) + c + up ≥ c + up
+      linarith
+
 /-- C08: n(>m) and ρ(>m) are non-negative whenever dn/dm ≥ 0, the step and the extrapolated tail are non-negative -/
 theorem gtm_nonneg (dx up : ℝ) (hdx : 0 ≤ dx) (hup : 0 ≤ up) (ys : List ℝ) (h : ∀ y ∈ ys, 0 ≤ y) :
     ∀ x ∈ (cumtrapzRev dx ys).map (· + up), 0 ≤ x := by
